@@ -267,6 +267,11 @@ class C17(ProtoSpec):
               ("raw", 1, {"type": "bind", "appid": "X", "side": "B"}), ("raw", 1, {"type": "claim", "nameplate": "1"})]
         if self.nolist:
             return [s2]
+        if getattr(self, "expired", False):
+            # a mailbox that was opened directly, abandoned, and expired under its lingering in-memory object
+            from .common import P_E
+            P, E = P_E()
+            return [[("conn", 0), b0, ("raw", 0, {"type": "open", "mailbox": "m"}), ("drop", 0), ("tick", E + 2 * P)]]
         return [[], s1, s2]
 
     def nontrivial(self, worlds, mon):
@@ -284,7 +289,12 @@ RULE = ("BFS over every sequence (<= depth state-changing steps) of commands fro
 
 
 def make_spec(tier, name=None):
-    return C17(tier, welcome=(name == "c17-welcome"), nolist=(name == "c17-nolist"))
+    sp = C17(tier, welcome=(name == "c17-welcome"), nolist=(name == "c17-nolist"))
+    if name == "c17-expired":
+        sp.expired = True
+        sp.max_conns = 2 if tier == "quick" else 3
+        sp.depth = 3 if tier == "quick" else 4
+    return sp
 
 
 def run(pid, tier, seed, args):
@@ -293,4 +303,6 @@ def run(pid, tier, seed, args):
     s1, s2 = make_spec(tier, "c17"), make_spec(tier, "c17-welcome")
     s3 = make_spec(tier, "c17-nolist")
     return run_specs(pid, tier, seed, args, [("c17", s1, s1.depth, b), ("c17-welcome", s2, max(2, s2.depth - 2), b),
-                                             ("c17-nolist", s3, s3.depth, b)], rule=RULE)
+                                             ("c17-nolist", s3, s3.depth, b),
+                                             ("c17-expired", make_spec(tier, "c17-expired"), make_spec(tier, "c17-expired").depth, b / 2)],
+                     rule=RULE)
